@@ -590,6 +590,12 @@ class AEval(dtable.Eval):
                 return L(*(xs + list(args[0][2])))
             if m == "zip" and args[0][0] == "list":
                 return L(*[T(a, b) for a, b in zip(xs, args[0][1])])
+            if m in ("chunks", "chunks_exact") and args and args[0][0] == "int" and args[0][1] > 0:
+                n = args[0][1]
+                out = [L(*xs[i:i + n]) for i in range(0, len(xs), n)]
+                if m == "chunks_exact":
+                    out = [c for c in out if len(c[1]) == n]
+                return L(*out)
             if m == "len" or m == "count":
                 return I(len(xs))
             if m == "is_empty":
@@ -675,6 +681,13 @@ class AEval(dtable.Eval):
             return C("Some", self.apply(args[0], [])) if r[1] else C("None")
         if r[0] == "bool" and m == "then_some":
             return C("Some", args[0]) if r[1] else C("None")
+        if r[0] == "int" and m == "div_ceil" and len(args) == 1 and args[0][0] == "int" and args[0][1] != 0:
+            return I(-(-r[1] // args[0][1]))
+        if r[0] == "int" and m in ("min", "max", "saturating_sub", "checked_sub", "wrapping_add") and len(args) == 1 and args[0][0] == "int":
+            a, b2 = r[1], args[0][1]
+            if m == "checked_sub":
+                return C("Some", I(a - b2)) if a - b2 >= 0 else C("None")
+            return I({"min": min(a, b2), "max": max(a, b2), "saturating_sub": max(0, a - b2), "wrapping_add": a + b2}[m])
         if r[0] in ("int", "char") and m in ("eq", "ne", "lt", "le", "gt", "ge") and len(args) == 1 and args[0][0] in ("int", "char"):
             x, y = r[1], args[0][1]
             return B({"eq": x == y, "ne": x != y, "lt": x < y, "le": x <= y, "gt": x > y, "ge": x >= y}[m])
@@ -807,6 +820,10 @@ class AEval(dtable.Eval):
                 elif k == "ExprStmt":
                     v = self.ex(st["expr"], env)
                     last = UNIT if st.get("semi") else v
+                elif k in ("Const", "Static") and is_node(st.get("expr")) and st.get("name"):
+                    env[st["name"]] = self.ex(st["expr"], env)
+                    shadow.add(st["name"])
+                    last = UNIT
                 else:
                     last = UNIT
             return last
